@@ -32,11 +32,14 @@ theorem C09_fmt4_arrays (m : M) (ss : List Seg) (h : Chain m 0 ss) :
 
 /-- The same on the emitted bytes, for every path `Format4.Encode` can take: whenever the
 encoder does not refuse (panic "too many mappings"), an independent decoder reading the bytes by
-the OpenType rules gets exactly the map. -/
+the OpenType rules gets exactly the map.  Hypothesis `hlen` (fewer than 32768 segments) is
+necessary: `IsPath` admits any path of proposed edges, e.g. 65536 one-code delta segments for
+the map c ↦ (1 if c even else 3); the encoder does not refuse it, segCountX2 = 2·65536 mod 65536
+= 0 is written and every lookup in the bytes returns 0. -/
 theorem C09_fmt4 (m : M) (lang : Nat) (path : List Seg) (b : Bytes) (h : IsPath m 0 path)
-    (hb : encode m lang path = some b) :
+    (hlen : path.length < 32768) (hb : encode m lang path = some b) :
     ∀ c, c < 65536 → specLookupBytes b c = m c % 65536 :=
-  lookup_encode m lang path b h hb
+  lookup_encode m lang path b h hlen hb
 
 /-- Header fields follow the OpenType formulae: format 4, segCountX2, searchRange =
 2·2^⌊log2 segCount⌋, entrySelector = ⌊log2 segCount⌋, rangeShift = segCountX2 − searchRange,
@@ -57,5 +60,30 @@ theorem C09_impl_eq_spec_4 (b : Bytes) (l : List (Nat × Nat)) (h : decode b = s
 /-! Non-vacuity -/
 def exM : M := fun c => if c = 65 then 10 else if c = 66 then 11 else if c = 70 then 3 else 0
 def exPath : List Seg := [⟨65, 70, 0, true⟩, ⟨65535, 65535, 1, false⟩]
+
+/-- the edges proposed at vertex 0: a delta segment for 65..66 and a values segment 65..70 -/
+example : appendEdges exM 0 = [⟨65, 66, 65481, false⟩, ⟨65, 70, 0, true⟩] := by decide
+
+theorem exPath_isPath : IsPath exM 0 exPath := by
+  refine ⟨by decide, ?_, rfl⟩
+  have h : skipNotdef exM 65536 71 = 0xFFFF :=
+    skipNotdef_all_zero exM 65536 71 (by omega) (by omega) (by
+      intro c h1 h2
+      have e1 : ¬ c = 65 := by omega
+      have e2 : ¬ c = 66 := by omega
+      have e3 : ¬ c = 70 := by omega
+      simp only [exM, e1, e2, e3, if_false])
+  show _ ∈ appendEdges exM 71
+  unfold appendEdges
+  rw [h]
+  decide
+
+example : Chain exM 0 exPath := isPath_chain exM 0 exPath exPath_isPath
+
+example : (encode exM 0 exPath).isSome = true := by decide
+
+/-- the library decoder accepts the emitted bytes and reads 70 ↦ 3, 66 ↦ 11, 67 ↦ 0 -/
+example : ((encode exM 0 exPath).bind decode).map (fun l => (alistGet l 70, alistGet l 66, alistGet l 67))
+    = some (3, 11, 0) := by decide
 
 end SfntV.Props.C09
